@@ -155,7 +155,8 @@ func parseExprWithPrecedence(lex *lexer.PeekingLexer, minPrec int) (Expression, 
 			}
 		case tok.Type == TokenTypeOpenBracket:
 			if minPrec >= 5 {
-				break
+				// the subscript belongs to an enclosing expression, e.g. (x as int)[0]
+				return lhs, nil
 			}
 			lhs, err = parseSubscript(lex, lhs)
 			if err != nil {
